@@ -23,6 +23,13 @@ import struct
 import subprocess
 from fractions import Fraction
 
+# extra pointwise functions (python name -> (rat, real, float)); the Lean names live in Lib/PyPreludeXR.lean / Model/PyPreludeX.lean,
+# which sites using them import through EXTRA_IMPORTS
+EXTRA_FUNCS = {
+    "sign": ("pySignQ", "pySignR", "pySignF"),
+}
+_P_registered = False
+
 RAISES = {}  # (gen, mode, leanName) -> bool   (filled while emitting, in site order)
 
 EXC_KIND = {
@@ -42,6 +49,14 @@ def _P():
     return importlib.import_module("py2lean")
 
 
+def _register():
+    global _P_registered
+    if not _P_registered:
+        for k, v in EXTRA_FUNCS.items():
+            _P().FUNCS.setdefault(k, v)
+        _P_registered = True
+
+
 def _unsupported(msg):
     return _P().Unsupported(msg)
 
@@ -58,7 +73,14 @@ def _state(tx):
 def tx_hook(tx, n):
     """called at the top of Tx.e for sites that opted in; returns a Lean term or None (= not handled here)"""
     _state(tx)
+    _register()
     site = tx.site
+    if site.get("complex_part") and not getattr(tx, "_cp_done", False):
+        # the selected expression is complex valued (`cos(x) + 1.0j * sin(x)`): emit its real or imaginary part
+        tx._cp_done = True
+        re, im = _cparts(tx, n)
+        part = re if site["complex_part"] == "re" else im
+        return part if part is not None else _P().lit(0.0, tx.mode, "0")
     if isinstance(n, ast.Name) and n.id in tx.locals:
         return tx.locals[n.id]
     if isinstance(n, (ast.IfExp, ast.BoolOp)) and not getattr(n, "_ext_seen", False):
@@ -70,6 +92,22 @@ def tx_hook(tx, n):
         finally:
             tx.no_hoist -= 1
             n._ext_seen = False
+    if isinstance(n, ast.Call) and isinstance(n.func, ast.Attribute):
+        # pointwise reading of array plumbing: xp.asarray(x, dtype=…) / xp.array(x) -> x ; x.astype(dtype) -> x,
+        # and (comparison).astype(dtype) -> 1 / 0
+        attr = n.func.attr
+        if attr in ("asarray", "array") and ast.unparse(n.func.value) in ("np", "xp", "numpy") and len(n.args) == 1 \
+                and {k.arg for k in n.keywords} <= {"dtype"}:
+            return tx.e(n.args[0])
+        if attr == "astype" and len(n.args) + len(n.keywords) == 1:
+            inner = n.func.value
+            while isinstance(inner, ast.Call) and isinstance(inner.func, ast.Attribute) and inner.func.attr in ("asarray", "array") \
+                    and len(inner.args) == 1 and {k.arg for k in inner.keywords} <= {"dtype"}:
+                inner = inner.args[0]
+            if isinstance(inner, (ast.Compare, ast.BoolOp)) or (isinstance(inner, ast.UnaryOp) and isinstance(inner.op, ast.Not)):
+                one, zero = _P().lit(1.0, tx.mode, "1"), _P().lit(0.0, tx.mode, "0")
+                return f"(if {tx.e(inner)} then {one} else {zero})"
+            return tx.e(inner)
     if isinstance(n, ast.Call) and isinstance(n.func, ast.Name):
         name = n.func.id
         calls = site.get("calls", {})
@@ -106,6 +144,70 @@ def tx_hook(tx, n):
     if isinstance(n, ast.ListComp):
         return _comprehension(tx, n)
     return None
+
+
+def _cparts(tx, n):
+    """(re, im) Lean terms of a complex-valued expression built from real sub-expressions, complex literals, + - * and unary minus;
+    None stands for an exactly-zero part"""
+    if isinstance(n, ast.Constant) and isinstance(n.value, complex):
+        lit = _P().lit
+        return (None if n.value.real == 0 else lit(float(n.value.real), tx.mode, None),
+                None if n.value.imag == 0 else lit(float(n.value.imag), tx.mode, None))
+    if isinstance(n, ast.UnaryOp) and isinstance(n.op, (ast.USub, ast.UAdd)):
+        re, im = _cparts(tx, n.operand)
+        if isinstance(n.op, ast.UAdd):
+            return re, im
+        return (None if re is None else f"(-{re})", None if im is None else f"(-{im})")
+    if isinstance(n, ast.BinOp) and isinstance(n.op, (ast.Add, ast.Sub)):
+        (a, b), (c, d) = _cparts(tx, n.left), _cparts(tx, n.right)
+        sym = "+" if isinstance(n.op, ast.Add) else "-"
+
+        def comb(x, y):
+            if y is None:
+                return x
+            if x is None:
+                return y if sym == "+" else f"(-{y})"
+            return f"({x} {sym} {y})"
+
+        return comb(a, c), comb(b, d)
+    if isinstance(n, ast.BinOp) and isinstance(n.op, ast.Mult):
+        (a, b), (c, d) = _cparts(tx, n.left), _cparts(tx, n.right)
+
+        def mul(x, y):
+            return None if x is None or y is None else f"({x} * {y})"
+
+        def sub(x, y):
+            return x if y is None else (f"(-{y})" if x is None else f"({x} - {y})")
+
+        def add(x, y):
+            return x if y is None else (y if x is None else f"({x} + {y})")
+
+        return sub(mul(a, c), mul(b, d)), add(mul(a, d), mul(b, c))
+    return tx.e(n), None  # a real-valued leaf (a complex literal deeper inside fails loudly in `lit`)
+
+
+def emit_call_tuples(src, site, mode):
+    """emitter: the literal string tuples passed to every call of `site["callee"]` inside a function, in source order,
+    e.g. the symbol lists of `self._nonzero_coefficients(("C10", "C12", "phi12"))` -> `List (List String)`"""
+    fn = src.func(site["file"], site["func"])
+    hits = []
+    for n in ast.walk(fn):
+        if isinstance(n, ast.Call):
+            f = n.func
+            name = f.attr if isinstance(f, ast.Attribute) else f.id if isinstance(f, ast.Name) else None
+            if name == site["callee"]:
+                if len(n.args) != 1 or n.keywords or not isinstance(n.args[0], (ast.Tuple, ast.List)) or not all(
+                        isinstance(e, ast.Constant) and isinstance(e.value, str) for e in n.args[0].elts):
+                    raise _unsupported(f"call of {name} without a literal string tuple: {ast.unparse(n)[:80]}")
+                hits.append((n.lineno, n.col_offset, [e.value for e in n.args[0].elts]))
+    hits.sort()
+    if not hits:
+        raise _unsupported(f"no call of {site['callee']} in {site['func']}")
+    rows = ",\n".join("  [" + ", ".join(f'"{v}"' for v in h[2]) + "]" for h in hits)
+    lean = (f"/-- {site['file']}:{fn.lineno} `{site['func']}`: string tuples passed to `{site['callee']}` (source order) -/\n"
+            f"def {site['name']} : List (List String) :=\n  [\n{rows}]\n")
+    return lean, {"rows": len(hits), "lines": [h[0] for h in hits],
+                  "sha": hashlib.sha256(json.dumps([h[2] for h in hits]).encode()).hexdigest()[:16]}
 
 
 def _comprehension(tx, g):
